@@ -176,7 +176,7 @@ func (p *pktF) setTiming(r *vgen.Rand, short bool) {
 			p.Mult = 1
 		}
 	} else {
-		p.DesTx = uint64(30_000_000 + r.Intn(1_000_000))
+		p.DesTx = uint64(600_000_000 + r.Intn(1_000_000))
 	}
 	p.pkt.DesiredMinTxInterval = layers.BFDTimeInterval(p.DesTx)
 	p.pkt.DetectMultiplier = layers.BFDDetectMultiplier(p.Mult)
@@ -245,8 +245,8 @@ func (c *counter) Add(v float64) {
 }
 
 const (
-	detect = 1500 * time.Millisecond       // detection time armed by a "short" packet (mult 1)
-	wait   = detect + 250*time.Millisecond // a detection-timeout event sleeps this long, then polls (settle)
+	detect = 300 * time.Millisecond        // detection time armed by a "short" packet (mult 1)
+	wait   = detect + 150*time.Millisecond // a detection-timeout event sleeps this long, then polls (settle)
 )
 
 // ---------------------------------------------------------------- histories
@@ -265,6 +265,7 @@ type event struct {
 	bfd     *pktF // nil with timeout = detection time passes
 	timeout bool
 	first   bool // first timeout of a group: this one waits
+	arm     bool // accepted packet that arms the short detection time right before a timeout group: link not observed
 	exp     int  // state the real transition table gives after this event (only used to wait for the session goroutine)
 	discard bool
 	raw     []byte // non-nil: delivered through the fast path
@@ -378,11 +379,17 @@ func genHist(r *vgen.Rand, cfgName string, cfg *rtgen.Config, scratch *rtgen.Rou
 		state[id] = 1
 	}
 	targeted := func() int {
-		var c []int
+		var c, up []int
 		for i, d := range h.pool {
 			if d.egress > 0 && has[d.egress] {
 				c = append(c, i)
+				if state[d.egress] == 3 {
+					up = append(up, i)
+				}
 			}
+		}
+		if len(up) > 0 && r.Chance(1, 2) { // a packet whose egress link should be up right now
+			return up[r.Intn(len(up))]
 		}
 		if len(c) == 0 || r.Chance(1, 4) {
 			return r.Intn(len(h.pool))
@@ -434,9 +441,10 @@ func genHist(r *vgen.Rand, cfgName string, cfg *rtgen.Config, scratch *rtgen.Rou
 			h.evs = append(h.evs, ev)
 		}
 		data(targeted())
-		// timing of the accepted packets of this phase; detection-time expiry
-		doWait := r.Chance(2, 3)
-		lastAcc := map[int]*event{}
+		// Detection-time expiry. Every packet above arms a detection time that cannot expire
+		// during the run. For the sessions chosen to expire, one more accepted packet arms a short
+		// detection time immediately before the wait; the link is not looked at between that
+		// packet and the expiry, so a slow machine cannot reorder what is observed.
 		for _, ev := range h.evs[start:] {
 			if ev.data >= 0 || ev.bfd == nil {
 				continue
@@ -450,25 +458,36 @@ func genHist(r *vgen.Rand, cfgName string, cfg *rtgen.Config, scratch *rtgen.Rou
 				}
 				ev.raw = raw
 			}
-			if !ev.discard && has[ev.link] {
-				lastAcc[ev.link] = ev
-			}
 		}
-		if doWait {
+		if r.Chance(2, 3) {
 			var exp []int
 			for _, l := range h.sess {
-				if ev := lastAcc[l]; ev != nil && r.Chance(2, 3) {
-					ev.bfd.setTiming(r, true)
-					if ev.raw != nil {
-						f := links[l][0]
-						raw, ok := ev.bfd.wire(cfg.IA, f.Nbr, f.Sibling != 0, f.ID)
-						if !ok {
-							raw = nil
-						}
+				if !r.Chance(2, 5) {
+					continue
+				}
+				var p *pktF
+				for {
+					st := -1
+					if r.Chance(2, 3) { // mostly a packet that keeps / brings the session up
+						st = vgen.Pick(r, 2, 3, 3)
+					}
+					p = genPkt(r, true, st)
+					if !bfd.VerifShouldDiscard(p.pkt) {
+						break
+					}
+				}
+				p.setTiming(r, true)
+				ev := &event{link: l, bfd: p, data: -1, arm: true}
+				f := links[l][0]
+				if r.Bool() {
+					if raw, ok := p.wire(cfg.IA, f.Nbr, f.Sibling != 0, f.ID); ok {
 						ev.raw = raw
 					}
-					exp = append(exp, l)
 				}
+				state[l] = bfd.VerifTransition(state[l], int(p.State))
+				ev.exp = state[l]
+				h.evs = append(h.evs, ev)
+				exp = append(exp, l)
 			}
 			for i, l := range exp {
 				h.evs = append(h.evs, &event{link: l, timeout: true, first: i == 0, data: -1})
@@ -634,9 +653,13 @@ func execHist(h *hist) {
 			} else if s := l.BFDSession(); s != nil {
 				s.ReceiveMessage(ev.bfd.pkt)
 			}
+			if ev.arm { // handed to the session; nothing is looked at until the expiry
+				accepted[ev.link]++
+				break
+			}
 			if isSess[ev.link] && !ev.discard {
 				accepted[ev.link]++
-				for t0 := time.Now(); rx[ev.link].n.Load() < accepted[ev.link] && time.Since(t0) < 5*time.Second; {
+				for t0 := time.Now(); rx[ev.link].n.Load() < accepted[ev.link] && time.Since(t0) < 20*time.Second; {
 					time.Sleep(50 * time.Microsecond)
 				}
 				settle(l.BFDSession(), ev.exp)
@@ -682,10 +705,14 @@ func (h *hist) term() string {
 			evs = append(evs, fmt.Sprintf("(let p := pk%d in RouterBfd.HPkt %d %s %d %s %s %s)", ev.data,
 				ev.obs.NowNs, d.sc.Ing.Gallina(), ev.data, ev.obs.ResultTerm(d.sc.Desc.L4), optN(ev.fwd), reply))
 		case ev.timeout:
-			evs = append(evs, fmt.Sprintf("(RouterBfd.HBfd %d None %s)", ev.link, vgen.B(ev.up)))
+			evs = append(evs, fmt.Sprintf("(RouterBfd.HBfd %d None (Some %s))", ev.link, vgen.B(ev.up)))
 		default:
+			up := "None"
+			if !ev.arm {
+				up = vgen.Opt(vgen.B(ev.up), true)
+			}
 			evs = append(evs, fmt.Sprintf("(RouterBfd.HBfd %d %s %s)", ev.link,
-				vgen.Opt(vgen.NList(ev.bfd.fields()), true), vgen.B(ev.up)))
+				vgen.Opt(vgen.NList(ev.bfd.fields()), true), up))
 		}
 	}
 	fmt.Fprintf(&sb, "RouterBfd.CHist %s %s (%s) %s %s)", h.cfgName, vgen.List(ss),
@@ -745,6 +772,7 @@ func main() {
 	run.Prelude = strings.Join(prelude, "\n")
 
 	nh := run.Count(96, 2400)
+	nData, nDataBfd, nBfd := 0, 0, 0
 	const batch = 96
 	for lo := 0; lo < nh; lo += batch {
 		hi := min(lo+batch, nh)
@@ -808,6 +836,10 @@ func main() {
 							where += "-nobfd"
 						}
 					}
+					nData++
+					if strings.HasSuffix(where, "-bfd") {
+						nDataBfd++
+					}
 					run.Tally("pkt:" + where + ":" + cls)
 					if ev.reply != nil {
 						run.Tally("reply-decoded")
@@ -816,10 +848,12 @@ func main() {
 						"ingress": d.sc.Ing.String(), "egress_link": d.egress, "impl": cls, "reply": ev.reply, "ms": ev.took.Milliseconds()})
 					fmt.Fprintf(&key, "|p%x", d.raw)
 				case ev.timeout:
+					nBfd++
 					run.Tally("bfd:timeout:up=" + vgen.B(ev.up))
 					desc = append(desc, map[string]any{"timeout": ev.link, "up": ev.up, "ms": ev.took.Milliseconds()})
 					fmt.Fprintf(&key, "|t%d", ev.link)
 				default:
+					nBfd++
 					how := "direct"
 					if ev.raw != nil {
 						how = "wire"
@@ -828,9 +862,13 @@ func main() {
 					if !isSess[ev.link] {
 						ses = "nosession"
 					}
-					run.Tally(fmt.Sprintf("bfd:recv-%s-%s:state%d:discard=%v:up=%v", how, ses, ev.bfd.State, ev.discard, ev.up))
+					if ev.arm {
+						run.Tally(fmt.Sprintf("bfd:arm-short-detection-%s:state%d", how, ev.bfd.State))
+					} else {
+						run.Tally(fmt.Sprintf("bfd:recv-%s-%s:state%d:discard=%v:up=%v", how, ses, ev.bfd.State, ev.discard, ev.up))
+					}
 					desc = append(desc, map[string]any{"bfd": ev.link, "state": ev.bfd.State, "my": ev.bfd.My,
-						"your": ev.bfd.Your, "discard": ev.discard, "wire": ev.raw != nil, "disp": ev.disp, "up": ev.up, "ms": ev.took.Milliseconds()})
+						"your": ev.bfd.Your, "discard": ev.discard, "wire": ev.raw != nil, "disp": ev.disp, "up": ev.up, "arm": ev.arm, "ms": ev.took.Milliseconds()})
 					fmt.Fprintf(&key, "|b%d:%v", ev.link, ev.bfd.fields())
 				}
 			}
@@ -847,6 +885,9 @@ func main() {
 			}
 		}
 	}
+	run.Extra("data_packets_processed", nData)
+	run.Extra("data_packets_with_bfd_egress", nDataBfd)
+	run.Extra("bfd_events", nBfd)
 	run.Finish()
 }
 
